@@ -207,8 +207,12 @@ def assemble(data):
             acc = acc + f(s, a, s2, rng=rng)
         return acc
 
-    state = reset_fn()
-    obs = obs_fn(state)
+    try:
+        state = reset_fn()
+        obs = obs_fn(state)
+    except ValueError as e:
+        # a component rejecting its parameter values (e.g. num_rivers=0) is a rejection of the configuration
+        raise AssembleError(f'component rejected its parameters: {e}')
     return GridWorld(
         StateSpace(state.grid.shape, sobjs, scols), ActionSpace(actions), ObservationSpace(obs.grid.shape, oobjs, ocols),
         reset_fn, chain, obs_fn, total, term_fn)
